@@ -61,6 +61,7 @@ def runners():
     add('reader[:][lv][:]', lambda m: [PC(m)('plt')[:][lv][:] for lv in (0, 1)])
     add('reader[f][lv][list]', lambda m: [PC(m)('plt')['a'][0][[2, 0, 1]], PC(m)('plt')[[0, 2]][1][np.array([True, True])]])
     add('reader[list][6 boxes]', lambda m: [PC(m)('plt6')[[1, 2]][0][:], PC(m)('plt6')[['a', 'volFrac']][0][[5, 0, 3, 1, 2, 4]], PC(m)('plt6')[1:][0][np.array([True] * 6)]])
+    add('reader-after-chdir', lambda m: chdir_reads(m, pooled=True), serial=lambda m: chdir_reads(m, pooled=False))
     add('iterate', lambda m: [list(PC(m)('plt')[1:][lv]) for lv in (0, 1)], multiset=True)
     add('iter()', lambda m: list(PC(m)('plt')[0][0].iter(slice(None, None, -1))))
     add('iter(list)', lambda m: [list(PC(m)('plt')[1:][0].iter([2, 0, 1])), list(PC(m)('plt')['a'][1].iter(np.array([True, True])))])
@@ -78,6 +79,24 @@ def runners():
     add('whip', lambda m: whip(m), ['grid.npy'])
     add('chk2plt', lambda m: [m['amr_kitchen.chk2plt.chk2plt'].chk2plt('chk00005', species=['H2', 'O2'], gradp=True, species_reactions=True, pltdir='out'), None][1], ['out'])
     return R
+
+
+def chdir_reads(m, pooled):
+    """Two directories hold different plotfiles under the same relative name; the session reads one, changes directory and
+    reads the other (relative paths).  Pooled selections and one-by-one (in-process) reads must agree."""
+    mod = m['amr_kitchen.plotfile_cooker']
+    o = mod.os
+    out = []
+    here = o.getcwd()
+    try:
+        for d in ('a', 'b'):
+            o.chdir(o.path.join(here, d))
+            pck = mod.PlotfileCooker('plt')
+            nb = len(pck.boxes[0])
+            out.append(pck[1:][0][:] if pooled else [pck[1:][0][i] for i in range(nb)])
+    finally:
+        o.chdir(here)
+    return out
 
 
 def chef(m, serial):
@@ -134,6 +153,8 @@ def execute(mods, S, runner, schedule, which='run'):
     fs = SymFS()
     p.write_symfs(fs, '/work/plt')
     p6.write_symfs(fs, '/work/plt6')
+    p.write_symfs(fs, '/work/a/plt')
+    p6.write_symfs(fs, '/work/b/plt')
     q.write_symfs(fs, '/work/plt2')
     r.write_symfs(fs, '/work/plt2d')
     chk.write_symfs(fs, '/work/chk00005')
@@ -186,6 +207,24 @@ def run_case(case):
     with core.active(ctx0):
         base = execute(mods, S, runner, pool.Schedule('identity'))
     if base[0][0] == 'raised':
+        if runner['serial'] is not None:
+            # the pooled mode fails outright: a violation if the serial mode of the same request succeeds
+            sbase = execute(mods, S, runner, pool.Schedule('identity'), which='serial')
+            if sbase[0][0] == 'returned':
+                sig = 'C12/%s/parallel-raises' % runner['name']
+                v = {'signature': sig, 'what': '%s raises %s in pooled mode while the serial mode of the same request returns' % (runner['name'], base[0][1:]),
+                     'index': case['index'], 'k': case['k'], 'schedule': {'real_vs_serial': True}}
+                if common.claim('C12', sig):
+                    d = make_replay(v)
+                    status, out = common.run_replay(d)
+                    v2 = {'signature': sig, 'what': v['what'], 'replay': d}
+                    if status == 'reproduced':
+                        res['violations'].append(v2)
+                    else:
+                        v2['replay_status'] = status
+                        v2['replay_output'] = out[-800:]
+                        res['unreproduced'].append(v2)
+                return res
         res['errors'].append('%s fails under the identity schedule: %s' % (runner['name'], base[0]))
         return res
 
@@ -290,6 +329,8 @@ def make_replay(v):
     fs = SymFS()
     p.write_symfs(fs, '/work/plt')
     p6.write_symfs(fs, '/work/plt6')
+    p.write_symfs(fs, '/work/a/plt')
+    p6.write_symfs(fs, '/work/b/plt')
     q.write_symfs(fs, '/work/plt2')
     r.write_symfs(fs, '/work/plt2d')
     chk.write_symfs(fs, '/work/chk00005')
@@ -320,7 +361,7 @@ def replay(d, case):
             mods[name] = importlib.import_module(name)
         except Exception:
             pass
-    if isinstance(case.get('schedule'), dict) and 'workers' in case['schedule']:
+    if isinstance(case.get('schedule'), dict) and ('workers' in case['schedule'] or case['schedule'].get('real_vs_serial')):
         return replay_workers(d, case, runner, mods)
     real_pools = {multiprocessing.Pool}
     try:
@@ -395,7 +436,7 @@ def replay_workers(d, case, runner, mods):
         def Pool(self, *a, **k):
             return real_Pool(self.w)
 
-    def one(tag, w):
+    def one(tag, w, which='run'):
         wd = os.path.join(d, 'work_' + tag)
         shutil.rmtree(wd, ignore_errors=True)
         shutil.copytree(os.path.join(d, 'in'), wd)
@@ -413,7 +454,7 @@ def replay_workers(d, case, runner, mods):
         try:
             with contextlib.redirect_stdout(io.StringIO()), contextlib.redirect_stderr(io.StringIO()):
                 try:
-                    ret = runner['run'](mods)
+                    ret = runner[which](mods)
                     outcome = ('returned', canon_ret(ret, runner['multiset']))
                 except Exception as e:
                     outcome = ('raised', type(e).__name__)
@@ -430,6 +471,15 @@ def replay_workers(d, case, runner, mods):
                         h.update(pth.encode())
                         h.update(open(pth, 'rb').read())
         return outcome, h.hexdigest()
+    if case['schedule'].get('real_vs_serial'):
+        # real process pools against the serial mode of the same request
+        base = one('serial', 16, 'serial')
+        other = one('pooled', 16, 'run')
+        if other[0][0] == 'raised' and base[0][0] != 'raised':
+            return True, 'raises %s in pooled mode, the serial mode returns' % other[0][1]
+        if repr(other[0]) != repr(base[0]) or other[1] != base[1]:
+            return True, 'the pooled result differs from the serial one'
+        return False, 'identical results'
     base = one('w16', 16)
     other = one('w%d' % case['schedule']['workers'], case['schedule']['workers'])
     if other[0][0] == 'raised' and base[0][0] != 'raised':
